@@ -219,7 +219,7 @@ def unit_index(floating):
 # --------------------------------------------------------------------------
 # uniform partitions
 
-def unit_uniform(missing, bl, br):
+def unit_uniform(missing, bl, br, spelling='list'):
     """uniform_partition for one axis with one of the four parameters left out (or all four given)"""
     def run(ctx):
         I = ctx.I
@@ -245,7 +245,7 @@ def unit_uniform(missing, bl, br):
                 return Light(['IntervalProd'], {'min_pt': min_pt, 'max_pt': max_pt})
             st.cuts[PT + 'uniform_partition_fromintv'] = fromintv
             st.cuts['odl.set.domain:IntervalProd.__new__$'] = None
-            kw = {'min_pt': xmin, 'max_pt': xmax, 'shape': n, 'cell_sides': dx, 'nodes_on_bdry': [(bl, br)] if bl != br else bl}
+            kw = {'min_pt': xmin, 'max_pt': xmax, 'shape': n, 'cell_sides': dx, 'nodes_on_bdry': ((bl, br) if spelling == 'pair' else [(bl, br)]) if (bl != br or spelling == 'pair') else bl}
             if missing:
                 kw[missing] = None
             fr = ip.Frame(st)
@@ -272,8 +272,8 @@ def unit_uniform(missing, bl, br):
             ctx.prove(st, 'completed min_pt is the consistent one', core.sc_eq(mn[0], xmin), info)
             ctx.prove(st, 'completed max_pt is the consistent one', core.sc_eq(mx[0], xmax), info)
             ctx.prove(st, 'completed shape is the consistent one', core.sc_eq(rec['shape'][0], n), info)
-    return Unit('uniform/partition/missing=%s/bdry=%s,%s' % (missing, bl, br), run, funcs=[PT + 'uniform_partition'],
-                config={'missing': missing, 'nodes_on_bdry': [bl, br]})
+    return Unit('uniform/partition/missing=%s/bdry=%s,%s%s' % (missing, bl, br, '/pair' if spelling == 'pair' else ''), run, funcs=[PT + 'uniform_partition', 'odl.util.normalize:normalized_nodes_on_bdry'],
+                config={'missing': missing, 'nodes_on_bdry': [bl, br], 'spelling': spelling})
 
 
 class LightIntv(object):
@@ -578,6 +578,7 @@ def units(tier, seed):
     for missing in (None, 'min_pt', 'max_pt', 'cell_sides'):
         for bl, br in itertools.product((False, True), repeat=2):
             us.append(unit_uniform(missing, bl, br))
+            us.append(unit_uniform(missing, bl, br, spelling='pair'))       # 1-d per-side flags given as one pair (left, right)
     for bl, br in itertools.product((False, True), repeat=2):
         us.append(unit_uniform_grid(bl, br))
     for kind in ('IntervalProd', 'RectGrid', 'RectPartition'):
